@@ -134,8 +134,12 @@ class FileSpecHashes:
             pass
 
     def close(self):
-        with open(self.path, "w") as hashes_file:
+        # Write to a temporary file and rename it into place, so that an
+        # interrupted write never leaves a truncated, unreadable file.
+        tmp_path = self.path + ".tmp"
+        with open(tmp_path, "w") as hashes_file:
             json.dump(self.hashes, hashes_file)
+        os.replace(tmp_path, self.path)
 
     def __enter__(self):
         return self
